@@ -252,6 +252,10 @@ pub fn gen_s1(focus: &str, seed: u64) -> S1Scenario {
             }
         }
     }
+    let drop_without_join = focus == "C05" && mode == "mixed" && strategy != Strategy::Simulation && rng.chance(1, 3);
+    if focus == "C05" && threads >= 3 && rng.chance(1, 3) {
+        threads += rng.usize_below(3); // up to 6 workers
+    }
     let chooser = if rng.chance(1, 2) { ChooserKind::Uniform } else { ChooserKind::Adversarial };
     S1Scenario {
         graph,
@@ -265,6 +269,7 @@ pub fn gen_s1(focus: &str, seed: u64) -> S1Scenario {
         sim_seed: rng.next_u64() >> rng.below(64),
         chooser,
         polls,
+        drop_without_join,
         sched,
     }
 }
